@@ -50,6 +50,19 @@ def gen_cases(tier, seed):
             cases.append({"cfg": cfg, "seed": env.subseed(seed, "c03must", k), "world": "f64",
                           "n": 100000 if tier == "quick" else 400000, "cost": 2})
             k += 1
+    # finding probe (open finding F-UMNN-NORM): a 1-D flow made of one UMNN autoregressive transform and a standard normal.  The
+    # forward map of a UMNN transform is a 20-30 node quadrature of its integrand network, the log-det is the integrand itself
+    for i in range(6 if tier == "quick" else 40):
+        c = zoo.sample_R_cfg(rng, "quick", 1, 0, fams=["ar_umnn"])
+        cfg = {"flow": "program", "D": 1, "ctx": 0, "data": "R", "parts": [c], "base": "standard", "embed": False,
+               "embed_same_width": False, "narrow": False, "policy": ["randn0.3", "randn1", "fresh"][i % 3]}
+        cases.append({"cfg": cfg, "seed": env.subseed(seed, "c03umnn", i), "world": "f64", "n": 100000, "cost": 6, "probe": "umnn_norm"})
+    # ... and the witness of the finding itself, independent of VERIF_SEED (integral 0.978)
+    wit = {"fam": "ar_umnn", "shape": [1], "hidden": 9, "ctx": 0, "blocks": 0, "residual": False, "random_mask": False, "cond": 3,
+           "steps": 20, "solver": "CC"}
+    cases.append({"cfg": {"flow": "program", "D": 1, "ctx": 0, "data": "R", "parts": [wit], "base": "standard", "embed": False,
+                          "embed_same_width": False, "narrow": False, "policy": "randn1"},
+                  "seed": 102, "world": "f64", "n": 100000, "cost": 6, "probe": "umnn_norm"})
     # packaged flows at 2 features
     for i in range(4 if tier == "quick" else 30):
         cfg = {"flow": "maf" if i % 2 == 0 else "realnvp", "D": 2, "hidden": 8, "layers": 1 + i % 2, "blocks": 1,
@@ -76,6 +89,40 @@ def make_flow(cfg, seed):
         f = dzoo.build_flow(cfg, seed, policy="randn0.3")
     f.eval()
     return f
+
+
+def _umnn_explained(flow, dom, n):
+    """Reference model of the open finding F-UMNN-NORM.  True iff (1) the flow's log_prob is EXACTLY standard-normal(z) + logabsdet
+    with (z, logabsdet) the transform's own outputs (so no term is dropped or double-counted anywhere), and (2) the missing /
+    excess mass is accounted for by the two ways in which z fails to be the antiderivative of exp(logabsdet): my own fine
+    cumulative quadrature Z of exp(logabsdet), anchored at x = 0, departs from z by more than 1e-3 where the density is not
+    negligible, or its image [Z(-inf), Z(+inf)] does not carry the whole standard normal.  Anything else is a new violation."""
+    import math
+    xs, w = q.grid_1d(dom, n)
+    with torch.no_grad():
+        z, lad = flow._transform(xs[:, None], None)
+        lp = flow.log_prob(xs[:, None])
+    z = z.reshape(-1)
+    ref = -0.5 * z ** 2 - 0.5 * math.log(2 * math.pi) + lad
+    fin = torch.isfinite(lp) & torch.isfinite(ref)
+    if not bool(fin.any()) or float((lp - ref)[fin].abs().max()) > 1e-9:
+        return False
+    g = torch.exp(lad)
+    gw = torch.where(torch.isfinite(g * w), g * w, torch.zeros_like(w))
+    cs = torch.cumsum(gw, 0) - 0.5 * gw
+    i0 = int(torch.argmin(xs.abs()))
+    Z = z[i0] + (cs - cs[i0])
+    # ... near the origin, where 20-30 quadrature nodes do resolve the integrand (observed <= 3e-3 on 36 sampled transforms), the
+    # reported log-derivative must BE the derivative of z: a wrong log-det (C01's business) is not this finding
+    near = xs.abs() <= 2.0
+    if float((z - Z)[near].abs().max()) > 2e-2:
+        return False
+    dens = torch.exp(lp) * w
+    weight = dens / dens.sum().clamp_min(1e-300)
+    departs = float(((z - Z).abs() * (weight > 1e-9)).max()) > 1e-3
+    zlo, zhi = float(Z.min()), float(Z.max())
+    image_mass = 0.5 * (math.erf(zhi / math.sqrt(2)) - math.erf(zlo / math.sqrt(2)))
+    return bool(departs or image_mass < 1 - 1e-5)
 
 
 def run_case(case):
@@ -122,7 +169,7 @@ def run_case(case):
                 zg, zw = q.grid_1d(("R",), 20000)
                 pb = torch.exp(logb(zg[:, None]).double())
                 outside = float((pb * zw)[(zg < zlo) | (zg > zhi)].sum())
-                if outside > 1e-7:
+                if outside > 1e-7 and case.get("probe") != "umnn_norm":
                     r.count("integrals_undecided")
                     r.count("unreachable_base_mass")
                     continue
@@ -164,7 +211,12 @@ def run_case(case):
         r.count("integrals_decided")
         err = abs(I2 - 1.0)
         r.worst("integral_err/allowed", err / (tol + 4 * est))
-        if err > tol + 4 * est:
+        if err > tol + 4 * est and case.get("probe") == "umnn_norm" and _umnn_explained(flow, dom, case["n"]):
+            r.count("umnn_probe_not_normalised")
+            r.viol("not_normalised", "UMNN flow is not normalised: log_prob is base(z) + log z' exactly, but the forward map z (a coarse "
+                   "quadrature of the integrand network) is not the antiderivative of the log-derivative it reports / has a bounded image",
+                   integral=I2, estimate=est, probe="umnn_norm", families=fams, cfg=cfg)
+        elif err > tol + 4 * est:
             r.viol("not_normalised", "exp(log_prob) of a flow does not integrate to one", integral=I2, coarse=I1,
                    estimate=est, dim=D, data_domain=cfg.get("data", "R"), base=cfg.get("base"), families=fams, cfg=cfg,
                    context_row=(ctx_row.tolist() if ctx_row is not None else None))
